@@ -11,6 +11,105 @@ def some(v):
     return Adt("core::option::Option", 1, "Some", [v])
 
 
+def ok(v):
+    return Adt("core::result::Result", 0, "Ok", [v])
+
+
+def err(v):
+    return Adt("core::result::Result", 1, "Err", [v])
+
+
+def cf_continue(v):
+    return Adt("core::ops::ControlFlow", 0, "Continue", [v])
+
+
+def cf_break(v):
+    return Adt("core::ops::ControlFlow", 1, "Break", [v])
+
+
+class EnumIter:
+    __slots__ = ("it", "i")
+
+    def __init__(self, it):
+        self.it, self.i = it, 0
+
+
+class ChunksIter:
+    __slots__ = ("s", "n", "i")
+
+    def __init__(self, s, n):
+        self.s, self.n, self.i = s, n, 0
+
+
+class RangeIncl:
+    __slots__ = ("lo", "hi", "done")
+
+    def __init__(self, lo, hi):
+        self.lo, self.hi, self.done = lo, hi, False
+
+
+def tmp_ref(v):
+    return Ref(_HeapFrame([v]), 0, [("i", 0)])
+
+
+def call_closure(I, clos, args, depth):
+    clos_v = deref(I, clos)
+    if not (isinstance(clos_v, Adt) and clos_v.path.startswith("closure:")):
+        if isinstance(clos_v, tuple) and clos_v and clos_v[0] == "fnitem":
+            k = clos_v[1]
+            name = I.P.norm(k.get("r", k["fn"]), False)
+            return I.dispatch(None, name, name, k, list(args), depth + 1)
+        raise Unsupported("call of non-closure %r" % (clos_v,))
+    cid = clos_v.path[len("closure:"):]
+    body = I.P.fns.get(cid) or I.P.fns.get("bin::" + cid)
+    if body is None:
+        raise Unsupported("closure body %s not found" % cid)
+    first = clos if isinstance(clos, Ref) else tmp_ref(clos_v)
+    if not body.locals[1].startswith("&"):
+        first = clos_v
+    return I.run(body, [first] + list(args), depth + 1)
+
+
+def iter_next(I, it, depth):
+    """Advance a modelled iterator; returns Option Adt."""
+    it = deref(I, it)
+    if isinstance(it, RangeIter):
+        if it.cur < it.end:
+            v = it.cur
+            it.cur += 1
+            return some(v)
+        return NONE()
+    if isinstance(it, RangeIncl):
+        if not it.done and it.lo <= it.hi:
+            v = it.lo
+            if it.lo == it.hi:
+                it.done = True
+            else:
+                it.lo += 1
+            return some(v)
+        return NONE()
+    if isinstance(it, SliceIter):
+        if it.i < it.s.len:
+            i = it.i
+            it.i += 1
+            return some(ElemRef(it.s, i))
+        return NONE()
+    if isinstance(it, EnumIter):
+        r = iter_next(I, it.it, depth)
+        if r.vi == 0:
+            return r
+        i = it.i
+        it.i += 1
+        return some([i, r.fields[0]])
+    if isinstance(it, ChunksIter):
+        if it.i + it.n <= it.s.len:
+            sl = Slice(it.s.heap, it.s.start + it.i, it.n, it.s.esz)
+            it.i += it.n
+            return some(sl)
+        return NONE()
+    raise Unsupported("next() on %r" % (it,))
+
+
 NONE = lambda: Adt("core::option::Option", 0, "None", [])  # noqa: E731
 
 
@@ -138,20 +237,14 @@ def intrinsic(I, short, args):
         a, b = lanes(args[0]), lanes(args[1])
         return int(all((x & y) == 0 for x, y in zip(a, b)))
     if op in ("loadu_si128", "loadu_si256", "load_si128", "load_si256", "lddqu_si128", "lddqu_si256"):
-        p = args[0]
-        if isinstance(p, Slice):
-            p = Ptr(p.heap, p.start, 1)
-        if isinstance(p, Ref):
-            v = I.read_path(p.frame, p.local, p.path)
-            if isinstance(v, list):
-                p = Ptr(v, 0, 1)
-            elif isinstance(v, Vec):
-                return v
-        if not isinstance(p, Ptr):
-            raise Unsupported("vector load from %r" % (p,))
-        if p.off < 0 or p.off + n > len(p.heap):
-            raise Panic("out-of-bounds %d-byte vector load at offset %d of a %d-byte buffer" % (n, p.off, len(p.heap)))
-        return Vec(p.heap[p.off:p.off + n])
+        p = to_ptr(I, args[0])
+        if isinstance(p, Vec):
+            return p
+        return Vec(p.load(n))
+    if op in ("storeu_si128", "storeu_si256", "store_si128", "store_si256"):
+        p = to_ptr(I, args[0])
+        p.store(list(lanes(args[1])))
+        return []
     if op in ("sad_epu8",):
         a, b = lanes(args[0]), lanes(args[1])
         out = []
@@ -170,11 +263,26 @@ def intrinsic(I, short, args):
     raise Unsupported("x86 intrinsic %s" % short)
 
 
+def to_ptr(I, p):
+    if isinstance(p, Slice):
+        return Ptr(p.heap, p.start * p.esz, p.esz, p.esz)
+    if isinstance(p, Ref):
+        v = I.read_path(p.frame, p.local, p.path)
+        if isinstance(v, list):
+            return Ptr(v, 0, 1, 1)
+        if isinstance(v, Vec):
+            return v
+    if not isinstance(p, Ptr):
+        raise Unsupported("expected pointer, got %r" % (p,))
+    return p
+
+
 def call(I, fr, name, fname, k, args, depth):
     short = name.rsplit("::", 1)[-1]
     # ---- x86 intrinsics
     if "arch::x86_64::_mm" in name or "arch::x86::_mm" in name:
-        return intrinsic(I, short, args)
+        cg = [int(x) for x in k.get("g", []) if re.fullmatch(r"-?\d+", x.strip())]
+        return intrinsic(I, short, list(args) + cg)
     if name.endswith("arch::x86_64::_pdep_u64"):
         a, mask = args[0] & (2**64 - 1), args[1] & (2**64 - 1)
         out, j = 0, 0
@@ -196,24 +304,156 @@ def call(I, fr, name, fname, k, args, depth):
             if isinstance(t, Slice):
                 return SliceIter(t)
         return v
-    if name.endswith("::next") and "Range" in name:
+    if name.endswith("Iterator>::next") or name.endswith("Iterator::next") or (name.endswith("::next") and ("Range" in name or "slice::" in name or "Enumerate" in name)):
+        return iter_next(I, args[0], depth)
+    if name.endswith("Iterator::enumerate"):
+        return EnumIter(args[0])
+    if name.endswith("slice::<impl [T]>::chunks_exact"):
+        return ChunksIter(as_slice(I, args[0]), args[1])
+    if name.endswith("Iterator>::position") or name.endswith("Iterator::position"):
+        i = 0
+        while True:
+            r = iter_next(I, args[0], depth)
+            if r.vi == 0:
+                return NONE()
+            if call_closure(I, args[1], [r.fields[0]], depth):
+                return some(i)
+            i += 1
+    if name.endswith("Iterator>::any") or name.endswith("Iterator::any") or name.endswith("Iterator>::all") or name.endswith("Iterator::all"):
+        want_any = name.endswith("any")
+        while True:
+            r = iter_next(I, args[0], depth)
+            if r.vi == 0:
+                return int(not want_any)
+            v = call_closure(I, args[1], [r.fields[0]], depth)
+            if want_any and v:
+                return 1
+            if not want_any and not v:
+                return 0
+    if name.endswith("ops::RangeInclusive::<Idx>::new"):
+        return RangeIncl(args[0], args[1])
+    if name.endswith("ops::RangeInclusive::<Idx>::contains") or name.endswith("ops::Range::<Idx>::contains"):
         r = deref(I, args[0])
-        if not isinstance(r, RangeIter):
-            raise Unsupported("Range::next on %r" % (r,))
-        if r.cur < r.end:
-            v = r.cur
-            r.cur += 1
-            return some(v)
-        return NONE()
-    if name.endswith("::next") and "slice::Iter" in name:
-        it = deref(I, args[0])
-        if not isinstance(it, SliceIter):
-            raise Unsupported("slice::Iter::next on %r" % (it,))
-        if it.i < it.s.len:
-            i = it.i
-            it.i += 1
-            return some(ElemRef(it.s, i))
-        return NONE()
+        x = deref(I, args[1])
+        if isinstance(r, RangeIncl):
+            return int(r.lo <= x <= r.hi)
+        if isinstance(r, RangeIter):
+            return int(r.cur <= x < r.end)
+        raise Unsupported("contains on %r" % (r,))
+    if name.endswith("ops::Try>::branch") or fname.endswith("ops::Try::branch"):
+        v = args[0]
+        if isinstance(v, Adt) and v.path.endswith("Option"):
+            return cf_continue(v.fields[0]) if v.vi == 1 else cf_break(NONE())
+        if isinstance(v, Adt) and v.path.endswith("Result"):
+            return cf_continue(v.fields[0]) if v.vi == 0 else cf_break(err(v.fields[0]))
+        raise Unsupported("Try::branch on %r" % (v,))
+    if "ops::FromResidual" in name and name.endswith("::from_residual") or fname.endswith("FromResidual::from_residual"):
+        v = args[0]
+        if isinstance(v, Adt) and v.path.endswith("Option"):
+            return NONE()
+        if isinstance(v, Adt) and v.path.endswith("Result"):
+            return err(v.fields[0])
+        raise Unsupported("from_residual on %r" % (v,))
+    if name.endswith("slice::<impl [T]>::copy_from_slice"):
+        dst, src = as_slice(I, args[0]), as_slice(I, args[1])
+        if dst.len != src.len:
+            raise Panic("copy_from_slice: length mismatch %d vs %d" % (dst.len, src.len))
+        for i in range(src.len):
+            dst.heap[dst.start + i] = src.heap[src.start + i]
+        return []
+    if name.endswith("slice::<impl [T]>::fill"):
+        dst = as_slice(I, args[0])
+        for i in range(dst.len):
+            dst.heap[dst.start + i] = args[1]
+        return []
+    if name.endswith("slice::<impl [T]>::first"):
+        s_ = as_slice(I, args[0])
+        return some(ElemRef(s_, 0)) if s_.len else NONE()
+    if name.endswith("slice::<impl [T]>::last"):
+        s_ = as_slice(I, args[0])
+        return some(ElemRef(s_, s_.len - 1)) if s_.len else NONE()
+    if name.endswith("slice::<impl [T]>::starts_with"):
+        a, b = as_slice(I, args[0]), as_slice(I, args[1])
+        return int(a.len >= b.len and a.heap[a.start:a.start + b.len] == b.heap[b.start:b.start + b.len])
+    if name.endswith("option::Option::<&T>::copied") or name.endswith("option::Option::<&T>::cloned"):
+        o = args[0]
+        return some(deref(I, o.fields[0])) if o.vi == 1 else o
+    if name.endswith("option::Option::<T>::unwrap") or name.endswith("option::Option::<T>::expect"):
+        o = args[0]
+        if o.vi != 1:
+            raise Panic("unwrap on None")
+        return o.fields[0]
+    if name.endswith("result::Result::<T, E>::unwrap") or name.endswith("result::Result::<T, E>::expect"):
+        o = args[0]
+        if o.vi != 0:
+            raise Panic("unwrap on Err")
+        return o.fields[0]
+    if name.endswith("result::Result::<T, E>::is_ok"):
+        return int(deref(I, args[0]).vi == 0)
+    if name.endswith("result::Result::<T, E>::is_err"):
+        return int(deref(I, args[0]).vi == 1)
+    if name.endswith("result::Result::<T, E>::ok"):
+        o = args[0]
+        return some(o.fields[0]) if o.vi == 0 else NONE()
+    if name.endswith("option::Option::<T>::map_or"):
+        o = args[0]
+        if o.vi == 0:
+            return args[1]
+        return call_closure(I, args[2], [o.fields[0]], depth)
+    if name.endswith("option::Option::<T>::map"):
+        o = args[0]
+        if o.vi == 0:
+            return o
+        return some(call_closure(I, args[1], [o.fields[0]], depth))
+    if name.endswith("option::Option::<T>::is_some_and"):
+        o = args[0]
+        if o.vi == 0:
+            return 0
+        return call_closure(I, args[1], [o.fields[0]], depth)
+    if name.endswith("option::Option::<T>::ok_or"):
+        o = args[0]
+        return ok(o.fields[0]) if o.vi == 1 else err(args[1])
+    if name.endswith("convert::TryInto<U>>::try_into") or fname.endswith("convert::TryInto::try_into") or name.endswith("convert::TryFrom<T>>::try_from") or "::try_from" in name and isinstance(args[0], int):
+        v = args[0]
+        if isinstance(v, int):
+            g = k.get("g", [])
+            tgt = g[-1] if g else None
+            if tgt in INT_TYPES:
+                bits, signed = INT_TYPES[tgt]
+                lo, hi = (-(1 << (bits - 1)), (1 << (bits - 1)) - 1) if signed else (0, (1 << bits) - 1)
+                return ok(v) if lo <= v <= hi else err([])
+            return ok(v)
+        if isinstance(v, Slice):
+            # &[T] -> [T; N] / &[T; N]
+            return ok(v.heap[v.start:v.start + v.len])
+        raise Unsupported("try_into of %r" % (v,))
+    if "IndexMut" in name and name.endswith("::index_mut") or "ops::IndexMut" in fname:
+        s_ = as_slice(I, args[0])
+        r = args[1]
+        if isinstance(r, int):
+            if not (0 <= r < s_.len):
+                raise Panic("index out of bounds")
+            return ElemRef(s_, r)
+        if isinstance(r, RangeIter):
+            a, b = r.cur, r.end
+        elif isinstance(r, Adt) and r.path.endswith("RangeTo"):
+            a, b = 0, r.fields[0]
+        elif isinstance(r, Adt) and r.path.endswith("RangeFrom"):
+            a, b = r.fields[0], s_.len
+        elif isinstance(r, Adt) and r.path.endswith("RangeFull"):
+            a, b = 0, s_.len
+        else:
+            raise Unsupported("index_mut with %r" % (r,))
+        if a > b or b > s_.len:
+            raise Panic("slice range %d..%d out of bounds (len %d)" % (a, b, s_.len))
+        return Slice(s_.heap, s_.start + a, b - a, s_.esz)
+    if name.startswith("core::panicking::") or name.startswith("std::rt::begin_panic") or "panicking::panic" in name:
+        raise Panic("explicit panic (%s)" % name)
+    if "__is_feature_detected::" in name:
+        feat = name.rsplit("::", 1)[1]
+        return int(I.features.get(feat, True)) if hasattr(I, "features") else 1
+    if name.endswith("string::String::from_utf8_lossy") or name.endswith("Cow::<'_, B>::into_owned") or name.endswith("borrow::Cow::<'_, B>::into_owned") or name.endswith("fmt::format") or "fmt::Arguments" in name or name.endswith("string::ToString>::to_string") or name.endswith("ToString::to_string"):
+        return Opaque("string")
     if name.endswith("slice::<impl [T]>::iter"):
         return SliceIter(as_slice(I, args[0]))
     # ---- slices
@@ -223,7 +463,11 @@ def call(I, fr, name, fname, k, args, depth):
         return int(as_slice(I, args[0]).len == 0)
     if name.endswith("slice::<impl [T]>::as_ptr") or name.endswith("str::<impl str>::as_ptr") or name.endswith("::as_mut_ptr"):
         s = as_slice(I, args[0])
-        return Ptr(s.heap, s.start, 1)
+        from .minimir import pointee_size
+
+        g = k.get("g", [])
+        ps = (pointee_size(g[0]) if g else None) or s.esz
+        return Ptr(s.heap, s.start * ps, ps, ps)
     if name.endswith("str::<impl str>::as_bytes"):
         return as_slice(I, args[0])
     if name.endswith("slice::<impl [T]>::get_unchecked") or name.endswith("SliceIndex<[T]>>::get_unchecked"):
@@ -239,6 +483,16 @@ def call(I, fr, name, fname, k, args, depth):
         i = args[1]
         if isinstance(i, int):
             return some(ElemRef(s, i)) if 0 <= i < s.len else NONE()
+        if isinstance(i, RangeIter):
+            if i.cur <= i.end <= s.len:
+                return some(Slice(s.heap, s.start + i.cur, i.end - i.cur, s.esz))
+            return NONE()
+        if isinstance(i, Adt) and i.path.endswith("RangeFrom"):
+            a = i.fields[0]
+            return some(Slice(s.heap, s.start + a, s.len - a, s.esz)) if a <= s.len else NONE()
+        if isinstance(i, Adt) and i.path.endswith("RangeTo"):
+            b = i.fields[0]
+            return some(Slice(s.heap, s.start, b, s.esz)) if b <= s.len else NONE()
         raise Unsupported("slice::get with %r" % (i,))
     if "ops::Index" in fname and fname.endswith("::index") or name.endswith("SliceIndex<[T]>>::index"):
         s = as_slice(I, args[0])
@@ -259,16 +513,19 @@ def call(I, fr, name, fname, k, args, depth):
             raise Unsupported("index with %r" % (r,))
         if a > b or b > s.len:
             raise Panic("slice range %d..%d out of bounds (len %d)" % (a, b, s.len))
-        return Slice(s.heap, s.start + a, b - a)
+        return Slice(s.heap, s.start + a, b - a, s.esz)
     if re.search(r"ptr::(const_ptr|mut_ptr)::<impl \*(const|mut) T>::add$", name):
-        p = args[0]
-        if isinstance(p, Slice):
-            p = Ptr(p.heap, p.start, 1)
-        if not isinstance(p, Ptr):
-            raise Unsupported("ptr.add on %r" % (p,))
-        return Ptr(p.heap, p.off + args[1] * p.esz, p.esz)
+        p = to_ptr(I, args[0])
+        return Ptr(p.heap, p.off + args[1] * p.esz, p.esz, p.helem)
     if re.search(r"ptr::(const_ptr|mut_ptr)::<impl \*(const|mut) T>::cast$", name):
-        return args[0]
+        p = to_ptr(I, args[0])
+        from .minimir import pointee_size
+
+        g = k.get("g", [])
+        ps = pointee_size(g[-1]) if g else None
+        if ps is None:
+            raise Unsupported("pointer cast to %r" % (g,))
+        return Ptr(p.heap, p.off, ps, p.helem)
     # ---- integer helpers
     m = re.search(r"num::<impl (u8|u16|u32|u64|usize|i8|i16|i32|i64|isize|u128)>::(\w+)$", name)
     if m:
@@ -277,7 +534,15 @@ def call(I, fr, name, fname, k, args, depth):
         a = args[0]
         if isinstance(a, Ref):
             a = I.read_path(a.frame, a.local, a.path)
-        ua = a & ((1 << bits) - 1)
+        ua = (a & ((1 << bits) - 1)) if isinstance(a, int) else None
+        if meth == "checked_add":
+            r = a + args[1]
+            hi = (1 << (bits - 1)) - 1 if signed else (1 << bits) - 1
+            return some(r) if r <= hi else NONE()
+        if meth == "checked_mul":
+            r = a * args[1]
+            hi = (1 << (bits - 1)) - 1 if signed else (1 << bits) - 1
+            return some(r) if r <= hi else NONE()
         if meth == "is_ascii_digit":
             return int(0x30 <= a <= 0x39)
         if meth == "is_ascii_alphabetic":
@@ -340,7 +605,7 @@ def call(I, fr, name, fname, k, args, depth):
             return wrap(abs(a), ty)
         if meth == "to_le_bytes":
             return [(ua >> (8 * i)) & 0xFF for i in range(bits // 8)]
-        if meth == "from_le_bytes":
+        if meth in ("from_le_bytes", "from_ne_bytes"):
             return wrap(sum((x & 0xFF) << (8 * i) for i, x in enumerate(args[0])), ty)
         if meth == "checked_sub":
             r = a - args[1]
@@ -396,8 +661,20 @@ def call(I, fr, name, fname, k, args, depth):
         return int(r if fname.endswith("::eq") else not r)
     if "convert::From<bool>" in name or (fname.endswith("convert::From::from") and isinstance(args[0], int)):
         return args[0]
-    if fname.endswith("convert::Into::into") and isinstance(args[0], int):
-        return args[0]
+    if fname.endswith("convert::Into::into") or name.endswith("convert::Into<U>>::into"):
+        # blanket Into: identity on scalars; local From impls are resolved as ordinary calls
+        g = k.get("g", [])
+        if isinstance(args[0], int):
+            return args[0]
+        if len(g) == 2 and g[0] == g[1]:
+            return args[0]
+        # look for a local `impl From<T> for U`
+        if len(g) == 2:
+            cand = "<%s as std::convert::From<%s>>::from" % (g[1], g[0])
+            body = I.P.fns.get(I.P.norm(cand, False))
+            if body is not None:
+                return I.run(body, [args[0]], depth + 1)
+        raise Unsupported("Into::into %r with %r" % (g, args[0]))
     if name.endswith("mem::size_of") or name.endswith("mem::align_of"):
         raise Unsupported(name)
     if name.endswith("hint::unreachable_unchecked") or name.endswith("intrinsics::unreachable"):
